@@ -551,3 +551,37 @@ Section Inc3.
     rewrite set_div3_spec by auto. apply run3_consistent; auto.
   Qed.
 End Inc3.
+
+(* ================================================================== corollaries used by the property file *)
+Section Corollaries.
+  Context {T : Type} (O : NumOps T) (sc : smooth_cfg) (sm : bool).
+
+  (* after set_div (data read at start-up, then set_div) the state is consistent, whatever it was before *)
+  Lemma incremental_eq_batch2_after_set_div (sh : shape2 (T:=T)) st0 pre h :
+    0 < nxg sh -> 0 < nyg sh -> Forall (fun e => in_grad2 sh (fst e)) h ->
+    let st1 := set_div2 O sc sm sh (preload2 O st0 pre) in
+    dump2 sh (dv2 (run2 O sc sm sh st1 h)) = dump2 sh (dv2 (set_div2 O sc sm sh (run2 O sc sm sh st1 h))).
+  Proof.
+    intros Hx Hy Hh st1. apply incremental_eq_batch2; auto.
+    intros p Hp. unfold st1. rewrite set_div2_spec by auto. reflexivity.
+  Qed.
+
+  Lemma incremental_eq_batch3_after_set_div (sh : shape3 (T:=T)) st0 pre h :
+    0 < mxg sh -> 0 < myg sh -> 0 < mzg sh -> Forall (fun e => in_grad3 sh (fst e)) h ->
+    let st1 := set_div3 O sc sm sh (preload3 O st0 pre) in
+    dump3 sh (dv3 (run3 O sc sm sh st1 h)) = dump3 sh (dv3 (set_div3 O sc sm sh (run3 O sc sm sh st1 h))).
+  Proof.
+    intros Hx Hy Hz Hh st1. apply incremental_eq_batch3; auto.
+    intros p Hp. unfold st1. rewrite set_div3_spec by auto. reflexivity.
+  Qed.
+End Corollaries.
+
+(* a rational instance of the carrier (results kept in lowest terms), used only to compute
+   non-vacuity examples inside Coq *)
+From Coq Require Import QArith Qround.
+Definition Qops : NumOps Q :=
+  mkNumOps Q 0%Q 1%Q (fun a b => Qred (a + b)) (fun a b => Qred (a - b)) (fun a b => Qred (a * b))
+           (fun a b => Qred (a / b)) (fun a => Qred (- a))
+           (fun x => x) (fun x => x) (fun x => x) (fun x => x) (fun x => x) (fun x => x)
+           (fun x _ => x) (fun x _ => x) inject_Z Qfloor
+           (fun a b => negb (Qle_bool b a)) Qle_bool Qeq_bool.
